@@ -42,6 +42,9 @@ KINDS = [
     ('props.C15', 'channel_source_harness', {'n': 2}, None),
     ('props.C19', 'replication_algebra', {}, None),
     ('props.C10', 'state_lock_harness', {}, None),
+    ('props.C03', 'wiring_harness', {'builder': 'ship_hash'}, None),
+    ('props.C03', 'wiring_harness', {'builder': 'group_by'}, None),
+    ('props.C03', 'wiring_harness', {'builder': 'broadcast'}, None),
     ('props.C20', 'dead_channel_harness', {'adaptive': True}, None),
 ]
 
